@@ -76,7 +76,11 @@ def check_one(sh, term, width, frac, strat, want_stats=False):
         if not ok:
             m2 = R.Matcher(term, st, width, frac, strat == 'smart', strict=False)
             if m2.run():
-                sh.violation('bare-hardline-in-flat-group', 'a bare HARDLINE was rendered inside a group / fill item laid out flat: %s -> %r' % (D.show(term), st.text()), case)
+                if m2.used_redecided:
+                    sh.violation('forced-break-in-scope-re-decided-inside-flat-group', 'a hardline / always_break was rendered inside a flat group, in a nested group or fill item that the engine '
+                                 're-decided and broke because its indentation is smaller than the flat group\'s: %s at width %d frac %s (%s) -> %r' % (D.show(term), width, frac, strat, st.text()), case)
+                if m2.used_lenient or not m2.used_redecided:
+                    sh.violation('bare-hardline-in-flat-group', 'a bare HARDLINE was rendered inside a group / fill item laid out flat: %s -> %r' % (D.show(term), st.text()), case)
                 sh.counters['streams accepted only by the lenient reading'] += 1
             else:
                 sh.violation(classify(term), 'the emitted layout is not one the document denotes: %s at width %d frac %s (%s) -> %r' % (D.show(term), width, frac, strat, st.text()), case)
@@ -161,7 +165,7 @@ def run_shard(sh):
                 check_one(sh, term, w, rng.choice(FRACS), strat)
                 sh.case((term, w, strat), True)
         sh.counters['long-tail terms'] += 1
-    for i in range(6000 if quick else 200000):
+    for i in range(6000 if quick else 1500000):
         idx += 1
         if not sh.mine(idx):
             continue
